@@ -220,6 +220,7 @@ def run(ctx):
             if cnt[v['finding']] > 40:
                 continue
         keep.append(v)
+    CK.annotate_stability(ctx, keep, judge, want_may=False)
     samples = [dict(CK.strip_case(c), world='<omitted>') for c in cases[:3]]
     return dict(evaluations=stats['witness_checked'], distinct_nontrivial=stats['nontrivial'],
                 rule='one evaluation = one (peptide, header entry) pair checked with the proved decider witness_ok; '
